@@ -683,7 +683,7 @@ func replayOrderFinding(ctx *common.Ctx) {
 	for a := 0; a < w.Attempts; a++ {
 		src := strings.ReplaceAll(w.Template, "@", fmt.Sprintf("kf%d", a))
 		exp := strings.ReplaceAll(w.Expected, "@", fmt.Sprintf("kf%d", a))
-		got := common.ShowOutcome(common.EvalTimeout(slip.NewScope(), src, 5*time.Second))
+		got := strings.Join(strings.Fields(common.ShowOutcome(common.EvalTimeout(slip.NewScope(), src, 5*time.Second))), " ")
 		if got != exp {
 			ctx.KnownResult(id, true, got)
 			return
